@@ -28,7 +28,7 @@ def run(ctx):
                          'ds:announced-message-is-the-job-message', 'ds:full-table-starts-nothing', 'ds:a-slot-in-use-is-never-taken', 'ds:del_avail-iff-concurrencyused<concurrency'})
     attach(r3, dd, only={'del:slot-release-and-counter-decrement-come-together', 'del:slot-freed-only-after-job_close'})
     attach(r3, ps, only={'pass:record-read-only-when-a-delivery-slot-is-free'})
-    attach(r3, qsend.clamp_sites(db), prefixes=['clamp:'])
+    attach(r3, qsend.clamp_sites(db, rep), prefixes=["clamp:"])
     r3.expect_min(9)
 
     r4 = rep.rule('C04.4-one-job-per-message-and-channel', 'R-EFFECT', 'pqchan insertion sites are exactly pqadd, job_close, pass_dochan(trouble), todo_do; an entry is removed before its job is opened; preprocessing happens once')
